@@ -18,8 +18,8 @@ theorem good_merged {s : State} (g : Good s) : Good (merged s) := by
   · refine ⟨g.core.serials, hperm.nodup_iff.mpr g.ids.nodup, ?_, g.core.dead, g.core.excl, g.core.trace,
       g.core.evBound⟩
     intro o ho hm
-    obtain ⟨a, b, c, r, hr, h1, h2, _⟩ := g.core.live o ho hm
-    exact ⟨a, b, c, r, (mem_merged s r).mpr (List.mem_append_right _ hr), h1, h2, by simp [merged]⟩
+    obtain ⟨a, b, r, hr, h1, h2, _⟩ := g.core.live o ho hm
+    exact ⟨a, b, r, (mem_merged s r).mpr (List.mem_append_right _ hr), h1, h2, by simp [merged]⟩
   · refine ⟨?_, ?_, g.ids.tnodup, g.ids.tlt⟩
     · show ((([] : List Req) ++ (merged s).executing).map (fun r => r.id)).Nodup
       rw [List.nil_append]; exact hperm.nodup_iff.mpr g.ids.nodup
@@ -127,8 +127,8 @@ theorem Core.no_live {s : State} (h : Core s) (hn : ∀ r ∈ s.executing, r.isU
   cases hm : o.inMap with
   | false => rfl
   | true =>
-    obtain ⟨_, _, _, r, hr, _, h2, h3⟩ := h.live o ho hm
-    exact absurd (hn r hr (by simp [Req.isUod, h2])) h3
+    obtain ⟨_, _, r, hr, h1, _, h3⟩ := h.live o ho hm
+    exact absurd (hn r hr (by simp [Req.isUod, h1])) h3
 
 theorem Core.rehome {s s' : State} (h : Core s) (hdead : ∀ o ∈ s.objs, o.inMap = false)
     (hobjs : s'.objs = s.objs) (hev : s'.events = s.events) (_hcfg : s'.cfg = s.cfg)
@@ -217,15 +217,13 @@ theorem good_life_noop {s0 s1 : State} {pre post : List Req} {l : Req} (p : PreL
     (hres : s0.resident = none) (b : Bool) : Good (finish (loop post (markDone s1 l)).1 b) := by
   have hcoreL : Core (markDone s1 l) := by
     apply p.core.congr (by simp) (by simp) (by simp) (by simp)
-    intro o ho hm
-    obtain ⟨_, _, _, r, hr, h1, h2, h3⟩ := p.core.live o ho hm
-    rw [markDone_done_mem]
-    rintro (hd | ⟨e, _⟩)
-    · exact h3 (h1 ▸ hd)
-    · have : r = l := req_id_inj p.core.ids hr (by rw [p.ex1]; exact p.lmem) (by rw [h1, e])
+    intro r hr hu hd
+    rw [markDone_done_mem] at hd
+    rcases hd with hd | ⟨e, _⟩
+    · exact hd
+    · have : r = l := req_id_inj p.core.ids hr (by rw [p.ex1]; exact p.lmem) e
       subst this
-      have := p.lu
-      simp [Req.isUod, h2] at this
+      rw [p.lu] at hu; cases hu
   have q := loop_uod_spec post [] hcoreL (by simpa using p.fix1) (p.trackEx1.of_view (by simp))
     (fun r hr => ⟨by simp [p.ex1, p.postmem r hr], p.upost r hr⟩) p.postNodup (by simp)
   apply good_finish_uod p.g0 q.core (by rw [q.view, view_markDone, p.view])
@@ -325,9 +323,7 @@ theorem good_life_cancelAll {s0 s1 : State} {pre post : List Req} {l : Req} (p :
     (hrp : n = .restart → sA.restartPending = some l) (b : Bool) :
     Good (finish (loop post { cancelAll n sA.executing sA with resident := some ⟨n, 1⟩ }).1 b) := by
   obtain ⟨v1, v2, v3, v4, v5, v6, v7, v8, v9, v10, v11, v12, v13, v14, v15, v16, v17⟩ := view_eq p.view
-  have hcoreA : Core sA := p.core.congr hobjs hev hex hcfg (fun o ho hm => by
-    obtain ⟨_, _, _, r, _, h1, _, h3⟩ := p.core.live o ho hm
-    rw [hdone, ← h1]; exact h3)
+  have hcoreA : Core sA := p.core.congr hobjs hev hex hcfg (fun _ _ _ hd => by rw [hdone] at hd; exact hd)
   have htrA : TrackEx sA := by
     intro ht r hr hu
     rw [htr]; exact p.trackEx1 (by rw [← htk]; exact ht) r (by rw [← hex]; exact hr) hu
@@ -353,9 +349,7 @@ theorem good_life_cancelAll {s0 s1 : State} {pre post : List Req} {l : Req} (p :
   have hloop : loop post { sC with resident := some ⟨n, 1⟩ } = ({ sC with resident := some ⟨n, 1⟩ }, false) :=
     loop_all_done _ _ (fun r hr => hall r (p.postmem r hr) (p.upost r hr))
   rw [hloop]
-  have hcoreL : Core { sC with resident := some ⟨n, 1⟩ } := pp.core.congr rfl rfl rfl rfl (fun o ho hm => by
-    obtain ⟨_, _, _, r, _, h1, _, h3⟩ := pp.core.live o ho hm
-    rw [← h1]; exact h3)
+  have hcoreL : Core { sC with resident := some ⟨n, 1⟩ } := pp.core.congr rfl rfl rfl rfl (fun _ _ _ hd => hd)
   have hreset : sC.resetTo = none := by rw [w6, hrt, v6]; exact p.g0.reset
   rw [finish_commit { sC with resident := some ⟨n, 1⟩ } hreset]
   apply good_sys
@@ -453,9 +447,7 @@ theorem good_life_end {s0 : State} (g0 : Good s0) {l : Req} (hex : s0.executing 
 
 theorem good_setPending {s : State} (g : Good s) (hres : s.resident = none) (x : Option Req) :
     Good { s with restartPending := x } := by
-  refine ⟨g.fix, g.core.congr rfl rfl rfl rfl (fun o ho hm => by
-      obtain ⟨_, _, _, r, _, h1, _, h3⟩ := g.core.live o ho hm
-      rw [← h1]; exact h3), ⟨g.ids.nodup, g.ids.lt, g.ids.tnodup, g.ids.tlt⟩,
+  refine ⟨g.fix, g.core.congr rfl rfl rfl rfl (fun _ _ _ hd => hd), ⟨g.ids.nodup, g.ids.lt, g.ids.tnodup, g.ids.tlt⟩,
     ⟨g.life.one, g.life.idle, g.life.trk, ?_⟩, g.trq, g.done, g.reset⟩
   have := g.life.res
   show match s.resident with | none => _ | some l => _
@@ -466,9 +458,7 @@ theorem PreLife.setPending {s0 s1 : State} {pre post : List Req} {l : Req} (p : 
     (hres : s0.resident = none) (x : Option Req) :
     PreLife { s0 with restartPending := x } { s1 with restartPending := x } pre post l := by
   refine ⟨good_setPending p.g0 hres x, p.q0, p.d0, p.ex, p.lu, p.upre, p.upost, ?_, ?_, p.doneOnly⟩
-  · exact p.core.congr rfl rfl rfl rfl (fun o ho hm => by
-      obtain ⟨_, _, _, r, _, h1, _, h3⟩ := p.core.live o ho hm
-      rw [← h1]; exact h3)
+  · exact p.core.congr rfl rfl rfl rfl (fun _ _ _ hd => hd)
   · obtain ⟨a1, a2, a3, a4, a5, a6, a7, a8, a9, a10, a11, a12, a13, a14, a15, a16, a17⟩ := view_eq p.view
     have a0 := view_paused p.view
     show View.mk _ _ _ _ _ _ _ _ _ _ _ _ _ _ _ _ _ _ = View.mk _ _ _ _ _ _ _ _ _ _ _ _ _ _ _ _ _ _
@@ -698,7 +688,7 @@ theorem good_tick {s : State} (g : Good s) : Good (tick s).1 := by
 
 theorem good_step {s : State} (g : Good s) (op : Op) : Good (step s op).1 := by
   cases op with
-  | req k => exact good_request g k
+  | req k bad => exact good_request g k bad
   | user n => exact good_user g n
   | tick => exact good_tick g
   | cancel i => exact good_cancel g i
